@@ -11,6 +11,9 @@ CHECKS = {
  "C02": ("exploration", "runtime memory-diff and write-journal monitor in the reference Logix target, plus read-back through the driver",
          "Before every write() call the whole controller memory is snapshotted; after it every byte is compared with the reference expectation (addressed bytes = reference encoding, don't-care bytes masked, everything else unchanged), the target's journal of executed write services is matched one-to-one against the successful requests (write / tiling fragments / exact-width read-modify-write touching only requested bits) and the address is read back.",
          "Overlapping requests of one call are judged at journal level only.", "4 C02"),
+ "C03": ("exploration", "runtime result-shape / isolation monitor over mixed valid+invalid request lists against the reference Logix target",
+         "Calls of 1-40 requests mix valid requests with invalid ones of every class the statement lists (including controller error statuses forced by the target) at first/last/all/alternating/random positions, sized so that requests spread over several multi-service packets, fragmented transfers and bit-write groups; the oracle checks arity/shape, positional correspondence (name, value), falsy+error for invalid requests, no escaping exception, unchanged outcome of the valid ones (values / controller memory) and the Tag truthiness contract.",
+         "Undocumented request shapes are tabulated in a census and never judged; out-of-range bit numbers are judged for 'no exception' only.", "4 C03"),
  "C04": ("exploration", "runtime size/tiling monitors inside a reference target that enforces the granted connection size, driven by a dense size sweep",
          "The reference target records the size it granted at Forward Open and checks online every connected data item length, every solicited Read Tag / multi-service reply size, and every fragment offset (reads: offset == bytes returned so far; writes: contiguous from 0, exact cover). The workload sweeps every SINT-array length in the window around the connection size for both connection sizes, both addressing modes, six name lengths, program scope, read and write, single and multi paths and three target fragment policies, plus other element types at the same byte windows, coarse sizes to 3x the connection size and brim-filling mixes of many long-named small tags.",
          "Window width 24 (quick) / 60 (thorough) bytes around S and S/2; connection size semantics as in DESIGN.md section 3.", "4 C04"),
